@@ -131,6 +131,8 @@ PROPS = {
              "bound": "11 data types x {FORM, general RAT_FUNC with arbitrary finite coefficients} x arbitrary finite declared limits", "timeout": 240},
             {"engine": "E2", "module": "lib", "harness": "h_check_axis_datatype_dispatch", "functions": ["checker::check_characteristic_common", "checker::calc_compu_method_limits", "checker::check_limits_valid"],
              "bound": "MAP whose first axis is STD/FIX/COM_AXIS and whose second axis is a STD_AXIS with limits inside / outside the UWORD range of AXIS_PTS_Y (6 cases)", "timeout": 200, "extra_modules": ["tokenizer"]},
+            {"engine": "E2", "module": "lib", "harness": "h_check_limit_dispatch", "functions": ["A2lFile::check", "checker::check_measurement", "checker::check_characteristic_common", "checker::check_axis_pts", "checker::check_typedef_measurement", "checker::calc_compu_method_limits"],
+             "bound": "{MEASUREMENT, CHARACTERISTIC, AXIS_PTS, STD_AXIS AXIS_DESCR, TYPEDEF_MEASUREMENT} x {NO_COMPU_METHOD, IDENTICAL, LINEAR 2x, TAB_VERB, FORM} x limits {inside, below, above} on UBYTE (75 documents): exactly one LimitCheckError iff outside and evaluated", "timeout": 300, "extra_modules": ["tokenizer"], "must_cover": ["limit_dispatch_end"], "max_steps": 5000000},
             {"engine": "E2", "module": "checker", "harness": "h_c12_limits_valid", "functions": ["checker::check_limits_valid"],
              "bound": "calculated range from 17 ranges (11 raw ranges + 6 ranges with ends of very different magnitude); all finite declared limits: inside, within half the tolerance, clearly outside (10x) on each side", "timeout": 240, "must_cover": ["upper limit slightly above the range"]},
         ],
@@ -233,7 +235,7 @@ PROPS = {
             {"engine": "E2", "module": "lib", "harness": "h_sample_roundtrip", "msg_prefix": "C01", "functions": ["load_from_string", "A2lFile::write_to_string", "specification::*::parse / stringify of every element kind in the sample"],
              "bound": "the repository's own 340-line sample document (every element kind once): load, write, load, write (one concrete path)", "timeout": 600, "extra_modules": ["tokenizer"], "max_steps": 50000000},
             {"engine": "E2", "module": "lib", "harness": "h_ifdata_definitions", "msg_prefix": "C01", "functions": ["load_from_string", "tokenizer::handle_a2ml", "A2ml::stringify", "a2ml::GenericIfData::write", "A2lFile::write_to_string"],
-             "bound": "5 A2ML definitions x {conforming, deviating IF_DATA} x {LF, CRLF}: reload equal, second write identical", "timeout": 400, "extra_modules": ["tokenizer"]},
+             "bound": "8 A2ML definitions x {conforming, deviating IF_DATA} x {LF, CRLF}: reload equal, second write identical", "timeout": 400, "extra_modules": ["tokenizer"]},
         ] + [
             {"engine": "E2", "module": "lib", "harness": "h_comment_layout_lineends", "msg_prefix": "C01", "functions": ["load_from_string", "tokenizer::tokenize_core", "tokenizer::count_newlines", "parser::ParserState::get_line_offset", "writer::Writer::add_group", "A2lFile::write_to_string"],
              "bound": "block comment with 0..=3 inner line breaks x 0..=2 line breaks behind it x 3 positions (file head, in front of /begin MODULE, in front of /end MODULE) x line ends {LF, CRLF, CR} (108 documents)", "timeout": 300, "extra_modules": ["tokenizer"], "must_cover": ["comment_layout_end"]},
@@ -370,7 +372,7 @@ PROPS = {
                         "the ~30 error_or_log call sites inside generated element parsers are reached only as far as the template exercises them"],
         "jobs": [
             {"engine": "E2", "module": "lib", "harness": "h_strict_vs_nonstrict", "functions": ["load_from_string", "parser::ParserState::parse_file", "parser::ParserState::error_or_log", "parser::ParserState::get_string", "parser::ParserState::get_identifier", "parser::ParserState::handle_multiplicity_error", "parser::ParserState::check_block_version_lower", "parser::ParserState::handle_unknown_taggedstruct_tag", "specification::Measurement::parse"],
-             "bound": "11 documents, each loaded with strict = true and strict = false", "timeout": 300, "extra_modules": ["tokenizer"], "validate": 11},
+             "bound": "13 fault kinds (incl. missing / unknown ASAP2_VERSION) x {faulty element on one line, first parameter on the next line}, each loaded with strict = true and strict = false; diagnostics must name the line of the faulty token", "timeout": 300, "extra_modules": ["tokenizer"], "validate": 26},
         ] + [
             {"engine": "E2", "module": "parser", "harness": h, "functions": ["parser::ParserState::handle_unknown_taggedstruct_tag", "parser::ParserState::error_or_log"],
              "bound": "unknown tag + every 1..3-lexeme soup, strictness symbolic: strict never accepts", "timeout": 300, "extra_modules": ["tokenizer"]}
@@ -405,11 +407,11 @@ PROPS = {
     "C18": {
         "files": ["a2lfile/src/a2ml.rs", "a2lfile/src/ifdata.rs", "a2lfile/src/specification.rs", "a2lfile/src/lib.rs", "a2lfile/src/tokenizer.rs"],
         "trusted": T_STD,
-        "assumptions": ["five A2ML definitions (struct with all scalar kinds / array / enum, taggedunion with block sequence, taggedstruct with repeated and optional members, arrays + 64 bit scalars, named struct reference) each with one conforming instance and one single-token deviation, LF and CRLF line ends; definition supplied in-file only",
+        "assumptions": ["eight A2ML definitions (struct with all scalar kinds / array / enum, taggedunion with block sequence, taggedstruct with repeated and optional members, arrays + 64 bit scalars, named struct reference, plain taggedunion, taggedunion nested in a struct, signed scalars) each with one conforming instance and one single-token deviation, LF and CRLF line ends; definition supplied in-file only",
                         "'all A2ML definitions' is not claimed - the set is a fixed bounded family"],
         "jobs": [
             {"engine": "E2", "module": "lib", "harness": "h_ifdata_definitions", "msg_prefix": "C18", "functions": ["load_from_string", "tokenizer::handle_a2ml", "a2ml::parse_a2ml", "ifdata::parse_ifdata", "ifdata::parse_ifdata_from_spec", "ifdata::parse_ifdata_item", "ifdata::parse_ifdata_taggedstruct", "ifdata::parse_unknown_ifdata_start", "a2ml::GenericIfData::write", "A2lFile::ifdata_cleanup"],
-             "bound": "5 definitions x {conforming, deviating} x {LF, CRLF}", "timeout": 400, "extra_modules": ["tokenizer"], "validate": 20},
+             "bound": "8 definitions x {conforming, deviating} x {LF, CRLF} (deviations incl. two members in a taggedunion; signed scalars in hex with the sign bit set)", "timeout": 400, "extra_modules": ["tokenizer"], "validate": 20},
             {"engine": "E2", "module": "lib", "harness": "h_ifdata_empty_sequence", "functions": ["ifdata::parse_ifdata_item"],
              "bound": "3 definitions whose sequence element can match zero tokens, one IF_DATA block: loading terminates", "timeout": 300, "extra_modules": ["tokenizer"], "max_steps": 600000},
         ],
